@@ -34,3 +34,8 @@ def run(rep, tier, seed):
     rep.samples.extend(r['samples'][:3])
     rep.trusted.append('CPython 3.12 ast.parse is the definition of "parentheses required" at each (slot, child) '
                        'point; one representative source per child kind (the oracle depends on types and flags only)')
+    sec = native.run('b_prec', 'main', {'tier': tier, 'seed': seed}, timeout=7200)
+    sec['native_entry'] = ('b_prec', 'replay')
+    rep.bounded(sec)
+    rep.remainder = ('_is_atom / _is_enclosed_or_line / _is_enclosed_in_parents (text scanners) and the decision tree of '
+                     '_make_exprlike_fst: bounded put-path check only')
